@@ -43,6 +43,7 @@ def state? : Sexp → Option (PR Sexp)
 def wrapVal : Sexp → Sexp
   | .list (.atom "pr" :: rest) => .list (.atom "pr" :: rest)
   | .list (.atom "l" :: xs) => .list [.atom "pr", .list xs, .list []]
+  | .atom "None" => .list [.atom "pr", .list [], .list []]
   | v => .list [.atom "pr", .list [v], .list []]
 
 def mkVal (toks : List Sexp) : Sexp := .list [.atom "pr", .list toks, .list []]
